@@ -14,7 +14,7 @@ import (
 func init() {
 	register(&propDef{
 		id: "C19", level: "other", run: runC19,
-		explanation: "Decided: two structural necessary conditions in the generator packages (cmd/fitgen, its profile and fitstringer packages). (R1) determinism lint: every range over a map either only builds a map/set or commutative accumulations, or fills slices that are sorted before use, or runs where the map provably holds at most one entry; one frozen exception with its reason (genExpandComponents over dynCompFieldIndices, order-sensitive only with two or more dynamic-component fields in one message, which no bundled workbook has); the generation time reaches the output only under the timestamp flag; no other ambient input is used by the emitters. (R2b) the product-profile selection is an input: nothing in the generator stores into the example column of a workbook row. (R3) a pointer fetched from a map is dereferenced only under a nil/comma-ok test or with a key collected from the same map: a selection in which the key is absent must not panic. (R2) emitter agreement: the struct-field emitter, the constructor emitter and the lookup-table emitter each iterate msg.Fields without skipping and emit exactly one item per element, the table's struct index is the loop index and its key and number are the field's definition number; the SDK version printed is the pair handed to NewGenerator; rows with an empty or zero example column are skipped before the field slice is built. NOT decided: exit status, compilation of the output, byte identity of repeated runs, behaviour for every dependency-closed subset of rows: all of these need the command to run. Added: pick-any map loops need exactly one entry (C19-R2-pick-one, interprocedural length facts plus a re-checked fill chain); the version string from a zip name is exactly the name minus suffix and prefix; output files are written truncating (C19-R4-output-writes). (R2-imports) every import line the generator emits is a top-level, unconditional statement of its emitter: the generated file compiles whatever the profile contains. (R2-options-from-flags) every generator option constructed in the command is passed unconditionally or under flag loads only. (R5-full-scan) downward index scans that look at element i only reach index 0.",
+		explanation: "Decided: two structural necessary conditions in the generator packages (cmd/fitgen, its profile and fitstringer packages). (R1) determinism lint: every range over a map either only builds a map/set or commutative accumulations, or fills slices that are sorted before use, or runs where the map provably holds at most one entry; one frozen exception with its reason (genExpandComponents over dynCompFieldIndices, order-sensitive only with two or more dynamic-component fields in one message, which no bundled workbook has); the generation time reaches the output only under the timestamp flag; no other ambient input is used by the emitters. (R2b) the product-profile selection is an input: nothing in the generator stores into the example column of a workbook row. (R3) a pointer fetched from a map is dereferenced only under a nil/comma-ok test or with a key collected from the same map: a selection in which the key is absent must not panic. (R2) emitter agreement: the struct-field emitter, the constructor emitter and the lookup-table emitter each iterate msg.Fields without skipping and emit exactly one item per element, the table's struct index is the loop index and its key and number are the field's definition number; the SDK version printed is the pair handed to NewGenerator; rows with an empty or zero example column are skipped before the field slice is built. NOT decided: exit status, compilation of the output, byte identity of repeated runs, behaviour for every dependency-closed subset of rows: all of these need the command to run. Added: pick-any map loops need exactly one entry (C19-R2-pick-one, interprocedural length facts plus a re-checked fill chain); the version string from a zip name is exactly the name minus suffix and prefix; output files are written truncating (C19-R4-output-writes). (R2-imports) every import line the generator emits is a top-level, unconditional statement of its emitter: the generated file compiles whatever the profile contains. (R2-options-from-flags) every generator option constructed in the command is passed unconditionally or under flag loads only. (R5-full-scan) downward index scans that look at element i only reach index 0. (R5-const-index) constant indexes into lists of the generator's own structures are behind a length test.",
 		trusted:     []string{"Go's map iteration order is the only source of nondeterminism in sequential code without ambient inputs", "go/types resolution of the generator packages"},
 	})
 }
@@ -54,6 +54,7 @@ func runC19(c *Ctx, r *Report) {
 	c19Imports(c, r)
 	c19OptionsFromFlags(c, r)
 	c19FullScans(c, r)
+	c19ConstIndex(c, r)
 	c19DynCompPremise(c, r)
 	r.set("generator_functions", nFuncs)
 	r.set("map_ranges", n)
